@@ -297,6 +297,11 @@ def decide_and_write(mod, ctx, tier, seed, wall, inconclusive_reasons, findings_
     reach = ctx.extra.pop("reach", None)
     if reach:
         ctx.extra["anchor_reach"] = {k: f"{len(v['hit'])}/{len(v['all'])} lines" for k, v in sorted(reach.items())}
+        missed = {k: {"file": os.path.relpath(v.get("file", "?"), env.REPO) if v.get("file") else "?",
+                      "lines": sorted(set(v["all"]) - set(v["hit"]))}
+                  for k, v in sorted(reach.items()) if set(v["all"]) - set(v["hit"])}
+        if missed:
+            ctx.extra["anchor_lines_never_executed"] = missed
         for k, v in reach.items():
             if not v["hit"]:
                 inconclusive_reasons.append(f"anchored mechanism never executed: {k}")
